@@ -19,6 +19,7 @@ pub mod c14;
 pub mod c15;
 pub mod c16;
 pub mod c17;
+pub mod c18;
 pub mod c19;
 pub mod c20;
 pub mod common;
@@ -42,6 +43,7 @@ pub fn dispatch(ctx: &Ctx, args: &[String]) -> i32 {
         "C15" => c15::run(ctx),
         "C16" => c16::run(ctx),
         "C17" => c17::run(ctx),
+        "C18" => c18::run(ctx),
         "C19" => c19::run(ctx),
         "C20" => c20::run(ctx),
         "C16-child" => c16::child(ctx, args),
